@@ -685,6 +685,10 @@ def _r4(ctx, pkg, rule="R4"):
     and changes the list must be the one rebuild `[r for idx, r in enumerate(self.reaction_list) if idx not in reaction]`."""
     from ..valueflow import _bool_atoms, guards_satisfiable, split_guard
     fn = pkg.method("Network", "remove_reaction")
+    try:
+        fn = pkg.expanded("Network", "remove_reaction")      # branches moved into helper procedures are put back
+    except RecursionError:
+        pass
     ctx.saw(NF, "Network.remove_reaction")
     # type tests moved into a small predicate (a method of the class or a function of the module) are read through
     fl = Flow(fn, NF, resolver=lambda name: pkg.resolve("Network", name)[1], func_resolver=lambda name: pkg.functions.get((NF, name)), raise_arms=True)
